@@ -78,8 +78,36 @@ def gen_thr(rng, thorough):
     return out
 
 
+def gen_stalled(rng):
+    """a producer descheduled between its ticket and the publication of its element while other producers complete their sends
+    and stop() begins (at most two complete sends behind one stalled ticket: a third one of the default four slots would spin)"""
+    out = ['new file %d %s' % (rng.choice((31, 31, 30)), rng.choice(['s', 'sd', 'sl']))]
+    cnt = {}
+    def call(op, p):
+        n = cnt.get(p, 0); cnt[p] = n + 1
+        out.append('%s %d %d %d p%d-%d' % (op, p, rng.randrange(1, 5), rng.choice((0, 1)), p, n))
+    for _ in range(rng.randrange(0, 3)):
+        call('send', rng.randrange(1, 3))
+    if rng.random() < 0.5:
+        out.append('run')
+    call('take', 3)
+    for _ in range(rng.randrange(1, 3)):
+        call('send', rng.randrange(1, 3))
+    order = rng.choice(('stop-first', 'publish-first', 'run-between'))
+    if order == 'publish-first':
+        out += ['publish 3', 'flag', 'sentinel', 'join']
+    elif order == 'stop-first':
+        out += ['flag', 'sentinel', 'run', 'publish 3', 'join']
+    else:
+        out += ['run', 'flag', 'run', 'sentinel', 'run', 'publish 3', 'run', 'join']
+    out.append('close')
+    return out
+
+
 def gen(rng, thorough):
     lines = []
+    for i in range(40 if thorough else 6):
+        lines += gen_stalled(rng)
     nseg = 500 if thorough else 120
     for i in range(nseg):
         lines += gen_segment(rng, allow_empty=(i % 25 == 7))
@@ -222,6 +250,30 @@ class Oracle:
                     self.order.append(w[4])
             # the call reports success exactly when the line was accepted; a disabled level reports true by contract (logger.hpp)
             return (out == 'ret=1', None)
+        if w[0] == 'take':
+            # send() by a producer that is descheduled between its queue ticket and the publication of its element
+            if len(w) != 5 or not all(re.fullmatch(r'\d+', x) for x in w[1:4]) or int(w[2]) > 4 or w[4] == '-':
+                return (out == 'bad-op', None)
+            pid, level, val = int(w[1]), int(w[2]), int(w[3])
+            accepted = bool(self.levels >> level & 1)
+            n = self.npid.get(pid, 0)
+            self.npid[pid] = n + 1
+            self.stats['stalled_takes'] = self.stats.get('stalled_takes', 0) + 1
+            if not accepted:
+                self.calls[w[4]] = (pid, n, level, val, False, not self.stop_begun)
+                return (out == 'ret=1', None)
+            self.pending = getattr(self, 'pending', {})
+            self.pending[pid] = (w[4], n, level, val)
+            self.calls[w[4]] = (pid, n, level, val, True, False)       # not accepted before stop unless published before stop
+            return (out == 'ok', None)
+        if w[0] == 'publish':
+            pend = getattr(self, 'pending', {})
+            if len(w) != 2 or not w[1].isdigit() or int(w[1]) not in pend:
+                return (out == 'bad-op', None)
+            text, n, level, val = pend.pop(int(w[1]))
+            self.calls[text] = (int(w[1]), n, level, val, True, not self.stop_begun)    # send() returns now
+            self.order.append(text)
+            return (out == 'ret=1', None)
         if w[0] == 'run':
             return (out in ('parked', 'exited'), klass)
         if w[0] == 'flag':
@@ -291,7 +343,7 @@ def run(res, replay=None):
     res.assumptions += [
         'the queue is the specification of property C30 (tickets in CAS order, pops in ticket order, "empty" exactly when the push holding the next ticket has not completed); '
         'Logger::_msg_queue is not re-verified here',
-        'atomic steps: level test + element construction + ticket of try_push; completion of the push; loop condition; try_pop; process_logline (numbering + one stream write); '
+        'scripted segments with a stalled producer (ops take / publish: the harness performs the two halves of ff::uMPMC_Ptr_Queue::push itself, between them other sends, stop() statements and writer runs); atomic steps: level test + element construction + ticket of try_push; completion of the push; loop condition; try_pop; process_logline (numbering + one stream write); '
         'request_stop(); join = the writer thread has left operator()',
         'the model is the code WITH the two proposed fix: commits (writer loop `for (;;)`, `return try_push(le)`); on the base commit the corpus witnesses fail (lost_on_stop, inverted_return)',
         'scripted part: the real writer thread is parked inside the interposed clock_nanosleep (harness/vclock.hpp) whenever its try_pop failed and released for one run at a time; '
